@@ -266,6 +266,19 @@ class _AuthMiddleware:
         self._on_auth_failure = on_auth_failure
         self._exempt_prefixes = exempt_prefixes
 
+    @staticmethod
+    def _is_exempt(path: str, entry: str) -> bool:
+        """Return whether *path* falls under the exemption *entry*.
+
+        An entry ending in ``/`` exempts the subtree below it (the OAuth
+        mount); any other entry names one endpoint and matches only that exact
+        path.  A bare ``startswith`` would let ``<prefix>/health`` also exempt
+        a method called ``healthcheck`` and, since RPC routes are
+        ``<prefix>/<method>[/init|/exchange]``, the stream routes of a method
+        called ``health``.
+        """
+        return path.startswith(entry) if entry.endswith("/") else path == entry
+
     def process_request(self, req: falcon.Request, resp: falcon.Response) -> None:
         """Authenticate (if configured) and populate the transport contextvar.
 
@@ -284,7 +297,7 @@ class _AuthMiddleware:
         exempt = (
             req.method == "OPTIONS"
             or req.path.startswith("/.well-known/")
-            or any(req.path.startswith(pfx) for pfx in self._exempt_prefixes)
+            or any(self._is_exempt(req.path, entry) for entry in self._exempt_prefixes)
         )
         if self._authenticate is None or exempt:
             tc = _TransportContext(auth=_ANONYMOUS, transport_metadata=transport_metadata)
